@@ -392,6 +392,11 @@ fn judge(case: &Case, run: &Run, ctx: &mut CaseCtx) {
             if let Some(sp) = run.shutdown_pos {
                 end = end.min(sp);
             }
+            // a later browse of the type takes the search over: a regular one opens its own
+            // interval, a cache-only one ends the querying
+            if let Some(rp) = c.replaced {
+                end = end.min(rp);
+            }
             intervals.push((c.opened, end));
         }
         for p in sent.iter().filter(|p| !p.m.is_response() && p.m.questions.iter().any(|q| q.name.eq_ignore_case(&tyname))) {
